@@ -40,6 +40,7 @@ def enc_texts(lst):
 
 class C15(PureCheck):
     pid = "C15"
+    subst_every = 6
     warm_every = 3
     rule = ("layouts with >=1 run: all single-run layouts of length 0..2 + sampled 2- and 3-run layouts (quick) / all <=2-run "
             "layouts + sampled 3-run (thorough) over {a, b, space, newline, comma} x {plain, red, bold+on_blue}; split with 8 "
